@@ -70,7 +70,7 @@ static void EnterDefine(char* Name, char* Definition) {
     for (z = 0; z < 256; Neu->Compiled[z++] = l)
         ;
     for (z = 0; z < l - 1; z++) {
-        Neu->Compiled[(unsigned int)Neu->TransFrom[z]] = l - (z + 1);
+        Neu->Compiled[(unsigned char)Neu->TransFrom[z]] = l - (z + 1);
     }
     FirstDefine = Neu;
 }
@@ -220,7 +220,7 @@ void ExpandDefines(as_dynstr_t* p_line) {
                         z--;
                     }
                     if (z2 >= 0) {
-                        p2 += Lauf->Compiled[(unsigned int)t_toupper(
+                        p2 += Lauf->Compiled[(unsigned char)t_toupper(
                                 Line[p2 + FromLen - 1])];
                     }
                 }
